@@ -128,7 +128,7 @@ def gen(tier, rng):
 
 
 PS_PT = {1: "U8", 4: "U8x4", 6: "U16x3", 16: "F32x4"}
-SUP_FLT = {(1, 2): "Box", (2, 1): "CatmullRom"}
+SUP_FLT = {(1, 2): "Box", (1, 1): "Bilinear", (2, 1): "CatmullRom", (3, 1): "Lanczos3"}      # model support sn/sd -> a filter with that support
 
 
 def simulated_histories(res, n, seed):
